@@ -14,7 +14,8 @@
 //   window   no other thread's operation lies strictly inside a hold window
 //   lock     pthread_mutex_{lock,unlock,trylock} interposed (not under TSan): number of
 //            mutexes the calling thread holds when a library call returns
-//   hang     no logical progress for --hang-ms (backstop for a leaked lock)
+//   hang     watchdog thread: no stamp taken for --hang-ms while the index is in use
+//            (backstop for a leaked lock: the only wall-clock based verdict)
 // Stamps come from one global atomic counter (x86 `lock xadd` = full fence, so stamps
 // respect real time); compiler barriers bracket every library call (get is gnu::pure).
 //   --threads-max N (8)  --ops-max N (6)  --hang-ms N (20000)
@@ -234,8 +235,10 @@ struct round_ctx {
   std::vector<u64> keys;     // [0, nactive): targeted by operations; the rest is static ballast
   std::size_t nactive{0};
   std::vector<u64> initial;  // per key: id of the pre-populated value, 0 = absent
-  std::atomic<int> ready{0}, go{0}, ndone{0};
+  std::atomic<int> ready{0}, go{0};
+  std::atomic<int> phase{0};  // 1: keys/initial final, 2: w final (what the watchdog may read)
   std::vector<std::unique_ptr<worker>> w;
+  worker main_w;             // the main thread's sequential operations: pre-population, final snapshot
 };
 
 struct config { u64 threads_max{8}, ops_max{6}, hang_ms{20000}; } g_cfg;
@@ -271,11 +274,13 @@ void check_held(worker& w, const char* after, int expect, bool repair) {
   if (h > expect) {
     w.viol.emplace_back(std::string("mutex_lin/lock/held-after-") + after,
                         "thread holds " + std::to_string(h) + " mutex(es) after " + after + " returned, expected " + std::to_string(expect));
-    if (repair && lm::last != nullptr) { lib_enter(); (void)::pthread_mutex_unlock(lm::last); lib_leave(); }
+    if (repair && lm::last != nullptr) {
+      lib_enter(); (void)::pthread_mutex_unlock(lm::last); lib_leave();
+      lm::held = expect;
+    }  // else: the returned handle still owns it and releases it (do_get)
   } else {
     w.viol.emplace_back("mutex_lin/lock/not-held-after-hit", std::string("thread holds no mutex after ") + after + " returned");
   }
-  lm::held = expect;
 }
 
 // One get with the handle monitor. [hold]: keep the handle for a randomized time.
@@ -388,7 +393,6 @@ void run_worker(round_ctx& rc, worker& w) {
   }
   w.cur.store(-1, std::memory_order_relaxed);
   w.done.store(true, std::memory_order_release);
-  rc.ndone.fetch_add(1, std::memory_order_release);
 }
 
 // ------------------------------------------------------------------- generation
@@ -426,7 +430,13 @@ void make_universe(round_ctx& rc, vh::rng& r) {
   for (std::size_t i = 0; i < rc.keys.size(); ++i) {
     if (i < rc.nactive && !r.chance(p)) continue;
     rc.initial[i] = (u64{0xFFFF} << 32) | (i + 1);
-    if (!rc.db.insert(rc.keys[i], encode(rc.initial[i]).view())) std::abort();  // distinct keys, single-threaded
+    const auto vb = encode(rc.initial[i]);
+    (void)stamp();  // progress for the watchdog
+    lib_enter();
+    const bool ok = rc.db.insert(rc.keys[i], vb.view());
+    lib_leave();
+    check_held(rc.main_w, "insert", 0, true);
+    if (!ok) std::abort();  // distinct keys, single-threaded
   }
 }
 
@@ -461,7 +471,9 @@ json hex_keys(const round_ctx& rc) {
 
 json round_json(const round_ctx& rc, u64 c, const std::vector<const rec*>& all) {
   json ops = json::array();
-  for (const rec* o : all) {
+  auto sorted = all;
+  std::sort(sorted.begin(), sorted.end(), [](const rec* a, const rec* b) { return a->call < b->call; });
+  for (const rec* o : sorted) {
     json j = json::object();
     j.set("t", o->thread).set("op", kNames[o->kind]);
     if (o->key >= 0) j.set("key", o->key);
@@ -496,7 +508,8 @@ bool definitely(const round_ctx& rc, const std::vector<const rec*>& all, std::si
   return false;
 }
 
-void evaluate(round_ctx& rc, u64 c, worker& snap) {
+void evaluate(round_ctx& rc, u64 c) {
+  const worker& snap = rc.main_w;
   const int T = static_cast<int>(rc.w.size());
   std::vector<const rec*> all;  // workers' operations, then the snapshot
   for (const auto& w : rc.w) for (const auto& o : w->out) all.push_back(&o);
@@ -639,72 +652,93 @@ void evaluate(round_ctx& rc, u64 c, worker& snap) {
   if (rep().verbose) std::fprintf(stderr, "%s\n", round_json(rc, c, all).dump().c_str());
 }
 
-// No thread completed an operation for hang_ms: some thread sits in the library forever
-// (a leaked lock blocks the leaking thread's own next operation). Threads cannot be
-// joined, so the report is written and the process leaves at once.
+// Watchdog: while a round's index is in use (g_round set) every operation takes stamps, so
+// a clock that stands still for hang_ms means some thread sits in the library forever (a
+// lock leaked by an earlier operation blocks at the latest the leaking thread's own next
+// operation). Threads cannot be joined then: write the report and leave at once.
+std::atomic<round_ctx*> g_round{nullptr};
+std::atomic<u64> g_case{0};
+
 [[noreturn]] void report_hang(round_ctx& rc, u64 c) {
   json threads = json::array();
   int stuck_kind = -1;
-  for (const auto& w : rc.w) {
-    const bool done = w->done.load(std::memory_order_acquire);
-    const int cur = w->cur.load(std::memory_order_relaxed);
+  const auto look = [&](const worker& w, bool is_main) {
+    const bool done = w.done.load(std::memory_order_acquire);
+    const int cur = w.cur.load(std::memory_order_relaxed);
     if (!done && stuck_kind < 0 && cur >= 0) stuck_kind = cur;
-    threads.push(json::object().set("thread", w->id).set("done", done).set("in_flight", cur >= 0 ? kNames[cur] : "-")
-                     .set("completed", w->finished.load(std::memory_order_relaxed)).set("planned", static_cast<u64>(w->plan.size())));
-    if (done) for (const auto& v : w->viol) rep().violation("C13", v.first, v.second, json::object().set("thread", w->id));
-  }
+    threads.push(json::object().set("thread", is_main ? "main" : std::to_string(w.id)).set("done", done).set("in_flight", cur >= 0 ? kNames[cur] : "-")
+                     .set("completed", w.finished.load(std::memory_order_relaxed)).set("planned", static_cast<u64>(w.plan.size())));
+    if (done) for (const auto& v : w.viol) rep().violation("C13", v.first, v.second, json::object().set("thread", w.id));
+  };
+  const int phase = rc.phase.load(std::memory_order_acquire);
+  if (phase >= 2) for (const auto& w : rc.w) look(*w, false);
+  look(rc.main_w, true);
   rep().violation("C13", std::string("mutex_lin/hang/") + (stuck_kind >= 0 ? kNames[stuck_kind] : "unknown"),
-                  "no operation completed for " + std::to_string(g_cfg.hang_ms) + " ms: a thread is blocked inside the index (lock left held by an earlier operation)",
-                  json::object().set("case", c).set("universe", hex_keys(rc)).set("threads", std::move(threads)));
+                  "no operation made progress for " + std::to_string(g_cfg.hang_ms) + " ms: a thread is blocked inside the index (lock left held by an earlier operation)",
+                  json::object().set("case", c).set("universe", phase >= 1 ? hex_keys(rc) : json("(hung during pre-population)")).set("threads", std::move(threads)));
   rep().finish();
   std::fflush(nullptr);
   ::_exit(0);
+}
+
+void watchdog() {
+  using clk = std::chrono::steady_clock;
+  const auto step = std::chrono::milliseconds(std::clamp<u64>(g_cfg.hang_ms / 20, 1, 100));
+  u64 last_sig = 0;
+  auto since = clk::now();
+  for (;;) {
+    std::this_thread::sleep_for(step);
+    round_ctx* const rc = g_round.load(std::memory_order_acquire);
+    const u64 c = g_case.load(std::memory_order_relaxed);
+    const u64 sig = rc == nullptr ? 0 : (vh::hash_combine(c, g_clock.load(std::memory_order_relaxed)) | 1);
+    const auto now = clk::now();
+    if (rc == nullptr || sig != last_sig) { last_sig = sig; since = now; continue; }
+    if (now - since > std::chrono::milliseconds(g_cfg.hang_ms)) report_hang(*rc, c);
+  }
 }
 
 void run_round(u64 c) {
   vh::rng r(vh::case_seed(rep().seed, c, 0xC13));
   auto* rcp = new round_ctx;  // deliberately leaked on the hang path (threads still use it)
   round_ctx& rc = *rcp;
-  make_universe(rc, r);
-  make_plans(rc, r);
-  const int T = static_cast<int>(rc.w.size());
   g_clock.store(1, std::memory_order_relaxed);
+  g_case.store(c, std::memory_order_relaxed);
+  g_round.store(rcp, std::memory_order_release);
+  rc.main_w.cur.store(K_INSERT, std::memory_order_relaxed);
+  make_universe(rc, r);
+  rc.main_w.cur.store(-1, std::memory_order_relaxed);
+  rc.phase.store(1, std::memory_order_release);
+  make_plans(rc, r);
+  rc.phase.store(2, std::memory_order_release);
+  const int T = static_cast<int>(rc.w.size());
   for (auto& w : rc.w) w->th = std::thread(run_worker, std::ref(rc), std::ref(*w));
   while (rc.ready.load(std::memory_order_relaxed) != T) ::sched_yield();
   rc.go.store(1, std::memory_order_relaxed);  // thread creation already ordered the setup before the workers
-
-  auto last_change = std::chrono::steady_clock::now();
-  int last_progress = -1;
-  for (u64 it = 0; rc.ndone.load(std::memory_order_acquire) != T; ++it) {
-    if (it < 4000) { ::sched_yield(); continue; }
-    ::usleep(200);
-    int progress = 0;
-    for (const auto& w : rc.w) progress += w->finished.load(std::memory_order_relaxed);
-    const auto now = std::chrono::steady_clock::now();
-    if (progress != last_progress) { last_progress = progress; last_change = now; }
-    else if (now - last_change > std::chrono::milliseconds(g_cfg.hang_ms)) report_hang(rc, c);
-  }
   for (auto& w : rc.w) w->th.join();
 
   // final snapshot: sequential operations stamped after everything else
-  worker snap;
+  worker& snap = rc.main_w;
   snap.id = T;
   snap.prng.reseed(r.next());
   for (std::size_t ki = 0; ki < rc.keys.size(); ++ki) {
     rec g;
     g.kind = K_GET; g.key = static_cast<int>(ki); g.thread = T;
+    snap.cur.store(K_GET, std::memory_order_relaxed);
     do_get(rc, snap, g, false);
     snap.out.push_back(std::move(g));
   }
   rec e;
   e.kind = K_EMPTY; e.thread = T;
+  snap.cur.store(K_EMPTY, std::memory_order_relaxed);
   e.call = stamp(); lib_enter();
   e.ok = rc.db.empty();
   lib_leave(); e.ret = stamp();
   check_held(snap, "empty", 0, true);
   snap.out.push_back(std::move(e));
+  snap.cur.store(-1, std::memory_order_relaxed);
+  g_round.store(nullptr, std::memory_order_release);  // evaluation takes no stamps: watchdog off
 
-  evaluate(rc, c, snap);
+  evaluate(rc, c);
   delete rcp;
 }
 
@@ -723,6 +757,7 @@ int main(int argc, char** argv) {
   rep().note("lock_monitor", lm::active ? "on: pthread_mutex_* interposition verified by self-test" : "off: self-test failed");
   if (!lm::active) rep().inconclusive("mutex_lin: pthread_mutex_* interposition does not intercept std::mutex in this build; lock-leak monitor inactive (only the hang backstop remains)");
 #endif
+  std::thread(watchdog).detach();
   const vh::case_range cr(a);
   for (u64 c = cr.begin; c < cr.end; ++c) {
     rep().progress_case(c, "round");
